@@ -1,6 +1,6 @@
 import subprocess,re,sys,os,json
 os.chdir('/verif/harness')
-layers=['vf-core','vf-df','vf-walk','vf-files','vf-list','vf-res','vf-hist','vf-mixed','vf-tree','vf-join','vf-agg','vf-plow','vf-chan','vf-fn','vf-expr','vf-prune','vf-win','vf-dynf','vf-exec','vf-common']
+layers=['vf-core','vf-df','vf-walk','vf-files','vf-list','vf-res','vf-live','vf-hist','vf-cat','vf-mixed','vf-tree','vf-join','vf-agg','vf-plow','vf-chan','vf-fn','vf-expr','vf-prune','vf-win','vf-dynf','vf-exec','vf-common']
 def ft(c):
     out=subprocess.run(['cargo','tree','--offline','-p',c,'-e','normal,build','--prefix','none','-f','{p}|{f}'],capture_output=True,text=True)
     if out.returncode!=0: print(out.stderr[-2000:]); sys.exit(1)
